@@ -19,7 +19,7 @@ KFS = {  # switches of the transcription (HttpFramingOps.tla, constant KF) -> wh
    'icmpYZ': "stricmp_fast lowers only 'A'..'X' in its 8-byte path (estring.cpp:183): header names of 8+ bytes containing Y/Z are not found case-insensitively",
 }
 PARTS = ['msg', 'body', 'writer', 'mal', 'random', 'big']
-CLASSIFY_MAX = 900
+CLASSIFY_MAX = 3000
 
 
 def _open_kf(ctx, kf):
@@ -232,12 +232,22 @@ def run(ctx):
     lap('classified')
     # ---- the transcription follows the real code: the example case of every outcome of the valid scope is reproduced (KF = {})
     bad, n = _judge(ctx, traces['msg'] + traces['body'] + (traces['writer'] if t == 'thorough' else []), 'agree', mode='explain', kf='')
-    badk = {json.dumps([g[0], r], sort_keys=True) for g, r, _ in bad}
-    known = {json.dumps([g[0], r], sort_keys=True) for g, r, tx, kf in classified}
-    extra['transcription_vs_real_code'] = {'lines': n, 'not_reproduced': len(badk), 'of_which_rejected_by_reference': len(badk & known)}
-    if badk - known:
-        print(f'NOTE property={ctx.pid} {len(badk - known)} recorded outcome(s) of valid messages are not reproduced by the transcription '
-              f'(the specification may lag behind the code): e.g. {sorted(badk - known)[0][:300]}', flush=True)
+    K = lambda g, r: json.dumps([g[0], r], sort_keys=True)
+    known = {K(g, r) for g, r, tx, kf in classified}
+    left = [(g, r, tx) for g, r, tx in bad if K(g, r) not in known]
+    if left:    # harmless manifestations of a known deviation (e.g. a trailing zero-length write) are reproduced with that deviation enabled
+        rows2 = [x for g, r, tx in left for x in (g[0], r)]
+        for kf in KFS:
+            if not left:
+                break
+            bad2, _ = _judge(ctx, rows2, 'agree2', mode='explain', kf=kf, par=3)
+            still = {K(g, r) for g, r, _ in bad2}
+            left = [(g, r, tx) for g, r, tx in left if K(g, r) in still]
+            rows2 = [x for g, r, tx in left for x in (g[0], r)]
+    extra['transcription_vs_real_code'] = {'lines': n, 'not_reproduced_without_deviation': len(bad), 'not_reproduced_at_all': len(left)}
+    if left:
+        print(f'NOTE property={ctx.pid} {len(left)} recorded outcome(s) of the valid scope are not reproduced by the transcription '
+              f'(the specification may lag behind the code): e.g. {K(*left[0][:2])[:300]}', flush=True)
     lap('agree')
     # ---- the KF switches still produce their counterexamples (documentation; thorough only)
     if t == 'thorough':
